@@ -62,6 +62,9 @@ type Gen struct {
 	frameOn      bool
 	frameAllowed map[string][]string
 	frameNow0    string
+	topEntry     *State
+	frameOnlyKept map[string]bool
+	calleeKeeps   map[string]bool
 	frameN       int
 	cur          *Frame
 	verBound     map[string]string
